@@ -1,5 +1,141 @@
-import Smooth.Model.Surface
+/-
+C09 — history independence: the `_value` memo never changes an answer.
+
+The result of any evaluation or derivative query depends only on the expression and the point, never
+on history: earlier evaluations at other points, earlier calls that failed part-way, or other
+expressions that share sub-expression objects.
+
+Model/Heap: object identity is `Flags.id`; a DAG is a tree in which the shared object occurs several
+times with the same id; the `_value` fields of all objects form a `Store` (`id ↦ value`).  All history
+is the store the query starts from.  The public entry points (`atS`, `partialAtS`,
+`numericPartialsS` = reset, then `evalS`/`fwdS`/`revS`) are compared with the pure functions of
+Model/Eval and Model/Numeric (`evalG`, `fwdG`, `numericPartials`), which have no state at all.
+The theorems quantify over EVERY initial store — stale values of the expression's own objects from
+runs at other points or from runs that raised half-way, entries of foreign objects, anything — and
+over every number instance `N`.
+
+The one hypothesis, `IdsOK e` (well-formed sharing): two memo-carrying sub-nodes of `e` with the same
+id are the same sub-tree up to flags — in Python, the same object.  It is necessary (`exClash` below).
+-/
+import Smooth.Proofs.Heap
+import Smooth.Model.Instances
+
 namespace Smooth
-/-- placeholder while the property file is being written -/
-theorem C09_placeholder : (1 : Nat) = 1 := rfl
+open Expr
+variable {α : Type}
+
+/-- **C09 (evaluation).**  `Expression.at(point)` started from an arbitrary memo store returns
+exactly what the memo-free evaluator returns: same value, or same error. -/
+theorem at_history_independent (N : Num α) (p : Point α) {e : Expr α} (hid : IdsOK e)
+    (st : Store α) : atS N p e st = evalG N p e :=
+  at_refines N p hid st
+
+/-- **C09 (forward mode).**  the numeric `Partial.at(point)` likewise -/
+theorem partialAt_history_independent (N : Num α) (p : Point α) (x : String) {e : Expr α}
+    (hid : IdsOK e) (st : Store α) : partialAtS N p x e st = fwdG N p x e :=
+  partialAt_refines N p x hid st
+
+/-- **C09 (reverse mode).**  `_numeric_partials(point)` likewise -/
+theorem numericPartials_history_independent (N : Num α) (p : Point α) {e : Expr α}
+    (hid : IdsOK e) (st : Store α) : numericPartialsS N p e st = numericPartials N p e :=
+  numericPartials_refines N p hid st
+
+/-- two histories, one answer -/
+theorem at_any_two_histories (N : Num α) (p : Point α) {e : Expr α} (hid : IdsOK e)
+    (st₁ st₂ : Store α) : atS N p e st₁ = atS N p e st₂ := by
+  rw [at_refines N p hid, at_refines N p hid]
+
+/-- in particular after an earlier evaluation of ANOTHER expression `e'` (which may share objects
+with `e`) at ANOTHER point `p'`, itself started from any store -/
+theorem at_after_other_evaluation (N : Num α) (p p' : Point α) {e : Expr α} (e' : Expr α)
+    (hid : IdsOK e) (st₀ st₁ : Store α) (v' : α) (_h : evalS N p' e' st₀ = .ok (v', st₁)) :
+    atS N p e st₁ = evalG N p e :=
+  at_refines N p hid st₁
+
+/-- … and after earlier derivative queries -/
+theorem at_after_other_partials (N : Num α) (p p' : Point α) {e : Expr α} (e' : Expr α)
+    (hid : IdsOK e) (st₀ st₁ : Store α) (m : α) (acc acc' : Acc α)
+    (_h : revS N p' e' m acc st₀ = .ok (acc', st₁)) :
+    atS N p e st₁ = evalG N p e ∧ numericPartialsS N p e st₁ = numericPartials N p e :=
+  ⟨at_refines N p hid st₁, numericPartials_refines N p hid st₁⟩
+
+/-- **The memo invariant behind it** (`_evaluate` itself, no reset): started in a store that is
+consistent at `p` on the objects of `e` (every memo entry of an object of `e` holds that object's
+value at `p`; entries at foreign ids are arbitrary), `evalS` returns the pure value, leaves a
+consistent store that extends the old one by entries of `e`'s own objects — and if it raises, it
+raises the pure evaluator's error. -/
+theorem eval_memo_refines (N : Num α) (p : Point α) {e : Expr α} (hid : IdsOK e) {st : Store α}
+    (hc : Cons N p e st) :
+    (∀ v st', evalS N p e st = .ok (v, st') →
+        evalG N p e = .ok v ∧ Cons N p e st' ∧ Ext (memoIds e) st st') ∧
+    (∀ err, evalS N p e st = .error err → evalG N p e = .error err) :=
+  evalS_refines N p hid hc
+
+/-- the same for `_numeric_partial` … -/
+theorem fwd_memo_refines (N : Num α) (p : Point α) (x : String) {e : Expr α} (hid : IdsOK e)
+    {st : Store α} (hc : Cons N p e st) :
+    (∀ v st', fwdS N p x e st = .ok (v, st') →
+        fwdG N p x e = .ok v ∧ Cons N p e st' ∧ Ext (memoIds e) st st') ∧
+    (∀ err, fwdS N p x e st = .error err → fwdG N p x e = .error err) :=
+  fwdS_refines N p x hid hc
+
+/-- … and for `_compute_numeric_partials` -/
+theorem rev_memo_refines (N : Num α) (p : Point α) {e : Expr α} (hid : IdsOK e) (m : α)
+    (acc : Acc α) {st : Store α} (hc : Cons N p e st) :
+    (∀ acc' st', revS N p e m acc st = .ok (acc', st') →
+        revG N p e m acc = .ok acc' ∧ Cons N p e st' ∧ Ext (memoIds e) st st') ∧
+    (∀ err, revS N p e m acc st = .error err → revG N p e m acc = .error err) :=
+  revS_refines N p hid m acc hc
+
+/-- the reset establishes the invariant from any store -/
+theorem reset_consistent (N : Num α) (p : Point α) (e : Expr α) (st : Store α) :
+    Cons N p e (resetS e st) :=
+  cons_resetS N p e st
+
+/-- trees without sharing are well-formed -/
+theorem idsOK_of_distinct_ids {e : Expr α} (h : (memoIds e).Nodup) : IdsOK e :=
+  idsOK_of_nodup h
+
+/-! ### non-vacuity and sharpness
+
+`exDag one` is the DAG `s * s` with the ONE object `s = x + 1` (id 1) occurring twice under the
+product (id 2).  `intNum` is a toy exact instance over `Int` so that runs reduce by `rfl`. -/
+
+/-- the hypothesis holds of a genuine DAG (same id twice), over every number type -/
+example (one : α) : IdsOK (exDag one) ∧ memoIds (exDag one) = [2, 1, 1] :=
+  ⟨exDag_idsOK one, rfl⟩
+
+/-- the theorem applied to it with a stale store (wrong values at both own ids, a foreign entry),
+over the exact-rational instance of the correspondence driver -/
+example : atS qeNum [("x", ⟨3, true⟩)] (exDag ⟨1, true⟩)
+      [(1, ⟨100, true⟩), (2, ⟨7, true⟩), (99, ⟨5, true⟩)]
+    = evalG qeNum [("x", ⟨3, true⟩)] (exDag ⟨1, true⟩) :=
+  at_history_independent qeNum _ (exDag_idsOK _) _
+
+/-- the same run computed: `(3 + 1) * (3 + 1) = 16`, not the stale `7` -/
+example : atS intNum [("x", 3)] (exDag 1) [(1, 100), (2, 7), (99, 5)] = .ok 16 ∧
+    evalG intNum [("x", 3)] (exDag 1) = .ok 16 := ⟨rfl, rfl⟩
+
+/-- the stale store is not consistent, and the theorem is not trivial: without the reset, `_evaluate`
+itself returns the stale memo of the root, or squares the stale memo of the shared child -/
+example : (evalS intNum [("x", 3)] (exDag 1) [(1, 100), (2, 7), (99, 5)]).map (·.1) = .ok 7 ∧
+    (evalS intNum [("x", 3)] (exDag 1) [(1, 100), (99, 5)]).map (·.1) = .ok 10000 := ⟨rfl, rfl⟩
+
+/-- a consistent non-empty store: the memo of the shared child is hit, the answer is right -/
+example : Cons intNum [("x", 3)] (exDag 1) [(1, 4), (99, 5)] ∧
+    evalS intNum [("x", 3)] (exDag 1) [(1, 4), (99, 5)] = .ok (16, [(2, 16), (1, 4), (99, 5)]) := by
+  refine ⟨?_, rfl⟩
+  intro u hu v hv
+  simp only [exDag, exS, memoSubs, memoSubsList, List.append_nil, List.cons_append,
+    List.nil_append, List.mem_cons, List.not_mem_nil, or_false] at hu
+  rcases hu with rfl | rfl | rfl <;> cases hv <;> rfl
+
+/-- `IdsOK` is necessary: `exClash = (-x) + x ** 2` with both children carrying id 1 — the second
+child hits the first child's memo — evaluates to `-6` instead of `6`, from the EMPTY store -/
+example : atS intNum [("x", 3)] exClash [] = .ok (-6) ∧ evalG intNum [("x", 3)] exClash = .ok 6 ∧
+    ¬ IdsOK exClash := by
+  refine ⟨rfl, rfl, fun h => ?_⟩
+  have this : (Except.ok (-6) : R Int) = .ok 6 := at_refines intNum [("x", 3)] h []
+  exact absurd (Except.ok.inj this) (by decide)
+
 end Smooth
